@@ -3,6 +3,7 @@ mod leak;
 mod atrest;
 mod conc;
 mod crash;
+mod codec;
 mod store;
 mod world;
 
@@ -16,6 +17,7 @@ fn main() {
         Some("atrest") => atrest::main(&args[2..]),
         Some("conc") => conc::main(&args[2..]),
         Some("crash") => crash::main(&args[2..]),
+        Some("codec") => codec::main(&args[2..]),
         _ => {
             eprintln!("usage: vh store [--file] < ops");
             2
